@@ -113,7 +113,9 @@ func (l *queryLog) search(
 ) (entries []*logEntry, oldest time.Time) {
 	start := time.Now()
 
-	if params.limit == 0 {
+	if params.limit <= 0 || params.offset < 0 || params.offset+params.limit < 0 {
+		// Nothing can be returned for a non-positive limit.  Negative values
+		// (and sums that overflow) must not reach the slicing below.
 		return []*logEntry{}, time.Time{}
 	}
 
